@@ -15,7 +15,7 @@ S3 == INSTANCE SM3
 H  == INSTANCE HashObj WITH B <- 64, CFop <- S3!CF, IVval <- S3!IV, Out <- WordsToBytes
 VARIABLES l, st, bad
 
-Fresh == [written |-> <<>>, m |-> H!New]
+Fresh == [written |-> <<>>, injected |-> FALSE, m |-> H!New]
 
 Halves(ws) == << ws[1][1], ws[1][2], ws[2][1], ws[2][2], ws[3][1], ws[3][2], ws[4][1], ws[4][2],
                  ws[5][1], ws[5][2], ws[6][1], ws[6][2], ws[7][1], ws[7][2], ws[8][1], ws[8][2] >>
@@ -35,9 +35,15 @@ Expect(s, ev) ==
     [] ev.op = "sm3.reset" ->
          LET o == Fresh IN
          [st |-> Put(s, ev.h, o), ok |-> ev.panic = "" /\ ProjOK(o, ev), why |-> "reset: state"]
+    [] ev.op = "sm3.inject" ->
+         \* state injection (verif hook): the object is placed at an arbitrary (v, buffer, length);
+         \* from here on only the machine view is available (written = "unknown history")
+         LET pairs == [i \in 1..8 |-> <<ev.v[2 * i - 1], ev.v[2 * i]>>]
+             o == [written |-> <<>>, injected |-> TRUE, m |-> [v |-> pairs, buf |-> ev.x, len |-> ev.len]]
+         IN [st |-> Put(s, ev.h, o), ok |-> ev.panic = "" /\ ProjOK(o, ev), why |-> "inject: state"]
     [] ev.op = "sm3.write" ->
          LET o  == s[ev.h]
-             o2 == [written |-> o.written \o ev.data, m |-> H!Write(o.m, ev.data)]
+             o2 == [written |-> o.written \o ev.data, injected |-> o.injected, m |-> H!Write(o.m, ev.data)]
              okRet == ev.panic = "" /\ ev.n = Len(ev.data) /\ ev.err = ""
              okIn  == ev.data_after = ev.data
              okSt  == ProjOK(o2, ev)
@@ -46,7 +52,7 @@ Expect(s, ev) ==
                      ELSE IF ~okIn THEN "write: input modified" ELSE "write: state"]
     [] ev.op = "sm3.sum" ->
          LET o == s[ev.h]
-             dig == S3!Hash(o.written)
+             dig == IF o.injected THEN H!Sum(o.m) ELSE S3!Hash(o.written)
              okOut == ev.panic = "" /\ ev.out = ev["in"] \o dig
              okMach == H!Sum(o.m) = dig          \* implementation-shaped machine agrees
              okSt == ProjOK(o, ev)               \* Sum leaves the hash able to continue
